@@ -52,9 +52,22 @@ type VM struct {
 	Out *bytes.Buffer
 }
 
+// OutputLimit bounds what a script may print in one VM; beyond it the run is treated like an exhausted
+// instruction budget (resource exhaustion by the script, never a verdict).
+const OutputLimit = 4 << 20
+
+type limitedWriter struct{ buf *bytes.Buffer }
+
+func (w limitedWriter) Write(p []byte) (int, error) {
+	if w.buf.Len()+len(p) > OutputLimit {
+		panic(goatlang.VerifBudgetMsg + " (output limit)")
+	}
+	return w.buf.Write(p)
+}
+
 func New() *VM {
 	buf := &bytes.Buffer{}
-	return &VM{VM: goatlang.New(goatlang.WithStdout(buf)), Out: buf}
+	return &VM{VM: goatlang.New(goatlang.WithStdout(limitedWriter{buf})), Out: buf}
 }
 
 // FS builds an in-memory file system.
